@@ -49,13 +49,25 @@ def _mc(run):
     r = run.tlc_mc("CopyFilterMC", "CopyFilterMC_existing.cfg", label="sanity: a deferred directory that already exists in the destination counts as included (seeded variant) must be rejected", expect_error=True)
     if "Invariant ExistingLeftAlone is violated" not in r["out"]:
         raise Inconclusive("CopyFilterMC sanity configuration was not rejected: the model is vacuous")
+    # model -> code: TLC writes the pattern lists of the model (on the model's own tree) with the ALGORITHM model's written set
+    import os
+    gen = os.path.join(run.work, "gen-copy")
+    os.makedirs(gen, exist_ok=True)
+    cfgs = ["CopyFilterMC_gen.cfg", "CopyFilterMC_gen_exc.cfg"] + (["CopyFilterMC_gen_pairs.cfg", "CopyFilterMC_gen_pairs_exc.cfg"] if run.thorough else [])
+    for cfg in cfgs:
+        run.tlc_mc("CopyFilterMC", cfg, workers=1, label="TLC enumerates the pattern lists of CopyFilterMC with the algorithm model's written set (%s)" % cfg, env=dict(VERIF_GEN_DIR=gen))
+    n = len([f for f in os.listdir(gen) if f.startswith("copycase_")])
+    want = 7308 if run.thorough else 580
+    if n != want:
+        raise Inconclusive("CopyFilterMC case generation wrote %d files, %d expected" % (n, want))
+    run.gen_copy = gen
 
 
 def check(run):
     run.build()
     _mc(run)
     return copyfam.run(run, "C16", ["filter"], PFX, ASSUME, [
-        ("add a directory that neither matches nor has a selected descendant", _extra_dir, 0)], sig=_sig)
+        ("add a directory that neither matches nor has a selected descendant", _extra_dir, 0)], sig=_sig, env=dict(VERIF_GEN_DIR=run.gen_copy))
 
 
 def replay(run, path):
